@@ -1051,8 +1051,15 @@ def run(repo, chk):
                    expected="%s._leak_status = False" % cn, found=rtab.get(cn, {}).get("_leak_status"))
     chk.floor("R-C08-7", 2)
 
+    # ---------------------------------------------------------------- R-C08-10 every node's leak rows are built from that node's own data
+    B.check_loop_independence(repo, chk, "R-C08-10", [(CON, "leak_constraint.build"), (PAR, "leak_coeff_param.build"), (PAR, "leak_area_param.build"),
+                                                     (PAR, "leak_poly_coeffs_param.build"), (VAR, "leak_rate_var")], "node")
+    chk.floor("R-C08-10", 5)
+
 
 WITNESSES = [
+    dict(name="tank-leak-elevation-carried-from-the-previous-node", file=CON, old="                else:\n                    h = m.source_head[node_name]\n                    elev = node.elevation\n                delta = m.leak_delta",
+         new="                else:\n                    h = m.source_head[node_name]\n                delta = m.leak_delta", rule="R-C08-10"),
     dict(name="tank-leak-survives-reset", file="wntr/network/model.py", old="            node._prev_head = node.head\n            node._demand = None\n            node._leak_demand = None\n            node._leak_status = False\n",
          new="            node._prev_head = node.head\n            node._demand = None\n            node._leak_demand = None\n", rule="R-C08-7"),
     dict(name="isolated-junction-keeps-stale-leak", file="wntr/sim/hydraulics.py", old="            node._pressure = 0\n            node._leak_demand = 0\n", new="            node._pressure = 0\n", rule="R-C08-6"),
